@@ -165,9 +165,26 @@ impl VerifTablets {
         removed: &[Uuid],
         recreated: &[(Uuid, Option<String>)],
     ) {
-        let keyspaces: HashMap<String, Keyspace> = keyspaces
+        let keyspaces: Vec<(String, bool, Vec<String>, Vec<String>)> = keyspaces
             .iter()
             .map(|(name, tablet_based, tables)| {
+                (name.clone(), *tablet_based, tables.clone(), Vec::new())
+            })
+            .collect();
+        self.info_maintenance_with_views(&keyspaces, removed, recreated)
+    }
+
+    /// `TabletsInfo::perform_maintenance` with keyspaces given as
+    /// `(name, tablet_based, tables, materialized views)`.
+    pub fn info_maintenance_with_views(
+        &mut self,
+        keyspaces: &[(String, bool, Vec<String>, Vec<String>)],
+        removed: &[Uuid],
+        recreated: &[(Uuid, Option<String>)],
+    ) {
+        let keyspaces: HashMap<String, Keyspace> = keyspaces
+            .iter()
+            .map(|(name, tablet_based, tables, views)| {
                 (
                     name.clone(),
                     Keyspace {
@@ -189,7 +206,7 @@ impl VerifTablets {
                                 )
                             })
                             .collect(),
-                        views: HashMap::new(),
+                        views: views.iter().map(|v| (v.clone(), empty_view())).collect(),
                         user_defined_types: HashMap::new(),
                     },
                 )
@@ -274,6 +291,37 @@ impl VerifTablets {
             .dc_replicas_for_token(Token::new(token), dc)
             .map(|r| r.iter().map(|(n, s)| (n.host_id, *s)).collect())
     }
+}
+
+/// A materialized view with no columns (only its name matters to the tablet maintenance).
+pub fn empty_view() -> crate::cluster::metadata::MaterializedView {
+    crate::cluster::metadata::MaterializedView {
+        view_metadata: Table {
+            columns: HashMap::new(),
+            partition_key: vec![],
+            clustering_key: vec![],
+            partitioner: None,
+            pk_column_specs: vec![],
+        },
+        base_table_name: String::new(),
+    }
+}
+
+/// `(keyspace, table, number of tablets)` of every table of a `TabletsInfo`, sorted.
+pub fn info_table_sizes(info: &TabletsInfo) -> Vec<(String, String, usize)> {
+    let mut v: Vec<_> = info
+        .tablets
+        .iter()
+        .map(|(s, t)| {
+            (
+                s.ks_name().to_owned(),
+                s.table_name().to_owned(),
+                t.tablet_list.len(),
+            )
+        })
+        .collect();
+    v.sort();
+    v
 }
 
 /// `RawTablet::from_custom_payload` on the bytes stored under the tablets payload key.
